@@ -627,6 +627,14 @@ class Exec:
             ret, newrecv = lib.call_method(self, st, e, f.recv, f.name, args, kwargs)
             if newrecv is not None:
                 if self.spec_mode: raise ToolLimit('mutation inside a specification')
+                tgt_ = e.func.value
+                if isinstance(tgt_, ast.Attribute):
+                    b_ = self.ev(tgt_.value, st.fork())
+                    if isinstance(b_, VOpt): b_ = b_.val
+                    if isinstance(b_, VRef) and any((c_, tgt_.attr) in FRESH_VALUE_PROPERTIES for c_ in self.mro(b_.cls)):
+                        # the property returned a fresh container: the mutation is applied to that temporary and is lost (CPython semantics)
+                        st.trace.append('L%s: %s() on the value returned by property %s: a temporary, the object is unchanged' % (e.lineno, f.name, tgt_.attr))
+                        return ret
                 self.assign(self.load_of(e.func.value), newrecv, st)
             return ret
         if f.kind == 'modfunc':
